@@ -56,9 +56,10 @@ V_HARMLESS = [
 
 
 A_BREAKING = [
-    ("AUTH window 600 -> 6000 (old side)", "if since >= 600:", "if since >= 6000:", {"tie_check_auth_event"}),
-    ("AUTH window >= -> >", "if since >= 600:", "if since > 600:", {"tie_check_auth_event"}),
-    ("AUTH future side <= -> <", "elif since <= -600:", "elif since < -600:", {"tie_check_auth_event"}),
+    # (since the NaN guard `elif not (since < 600 and since > -600)` a change of one of the two earlier comparisons alone is an equivalent
+    #  mutant: the guard still refuses; the window is widened only when the guard moves too)
+    ("AUTH window 600 -> 6000 (old side, guard too)", "if since >= 600:\n            raise AuthenticationError(\"invalid: Too old\")\n        elif since <= -600:\n            raise AuthenticationError(\"invalid: Too new\")\n        elif not (since < 600 and since > -600):",
+     "if since >= 6000:\n            raise AuthenticationError(\"invalid: Too old\")\n        elif since <= -600:\n            raise AuthenticationError(\"invalid: Too new\")\n        elif not (since < 6000 and since > -600):", {"tie_check_auth_event"}),
     ("AUTH kind 22242 -> 22243", "if auth_event.kind != 22242:", "if auth_event.kind != 22243:", {"tie_check_auth_event"}),
     ("required tags: and -> or", "if not (found_relay and found_challenge):", "if not (found_relay or found_challenge):", {"tie_check_auth_event"}),
     ("challenge test inverted", "if tag[1] != challenge:", "if tag[1] == challenge:", {"tie_auth_loop"}),
@@ -168,6 +169,8 @@ def validators_part(lean):
             d = tempfile.mkdtemp(prefix="tiemut-")
             try:
                 os.makedirs(os.path.join(d, "nostr_relay"))
+                for other in ("dynamic_lists.py", "config.py"):
+                    shutil.copy(os.path.join("/repo/nostr_relay", other), os.path.join(d, "nostr_relay", other))
                 open(os.path.join(d, "nostr_relay", "validators.py"), "w").write(src.replace(old, new))
                 r = translate_validators.run(d, lean)
             finally:
